@@ -497,11 +497,18 @@ impl ProcfsHandle {
                     // If the lookup failed due to ENOENT, and the current
                     // procfs handle is "masked" in some way, try to create a
                     // temporary unmasked handle and retry the operation.
-                    Self::new_unmasked()
+                    match Self::new_unmasked() {
+                        // If we could not get a handle that is any less masked
+                        // (unprivileged callers only ever get the host's
+                        // /proc) there is no point in retrying -- and the
+                        // retry would take this very branch again, without
+                        // bound. The path really is not there for us.
+                        Ok(unmasked) if !unmasked.is_subset => {
+                            unmasked.open(base, subpath, oflags).map(OwnedFd::from)
+                        }
                         // Use the old error if creating a new handle failed.
-                        .or(Err(err))?
-                        .open(base, subpath, oflags)
-                        .map(OwnedFd::from)
+                        _ => Err(err),
+                    }
                 } else {
                     Err(err)
                 }
